@@ -268,3 +268,182 @@ K5A = REG.add(Contract(
     loop_ghost={0: ["$yielded"], 1: ["$yielded"], 2: ["$yielded"]},
     ghost_init=k5_init, reveal=("io", "num"), loop_fields=["$cursor"], modifies={"$cursor": None},
     verify_with=verify_items, properties=("C02", "C05", "C07", "C09"), noraise=True))
+
+
+# ---------------------------------------------------------------- R7: assignment of data columns to curves
+from . import las_api as API
+np_asarray = z3.Function("np_asarray", PyObj, PyObj)
+isfloat = lambda col: z3.Function("py_eq", PyObj, PyObj, B)(z3.Function("py_attr_dtype", PyObj, PyObj)(col), z3.Const("ext_%s" % __import__("hashlib").sha1(b"builtin:float").hexdigest()[:10], PyObj))
+
+REG.contracts["las_items.CurveItem.__init__"][0].ensures = (lambda old: (lambda c: old(c) + [
+    ("data-is-asarray-of-the-argument", z3.Select(c.h("data"), c.a["self"].t) == np_asarray(z3.If(is_none(c.a["data"].t), z3.Const("seq_%s" % __import__("hashlib").sha1(b"[]").hexdigest()[:10], PyObj), c.a["data"].t)))]))(LI.hi_init_post)
+REG.add(Contract("lib:np.asarray", params={"a": OBJ}, returns=OBJ, assumed=True, noraise=True,
+                 ensures=lambda c: [("T-np", c.res.t == np_asarray(c.a["a"].t))],
+                 note="T-np: numpy.asarray is a function of its argument (identity on arrays)", properties=("C07", "C06", "C14")))
+
+
+def r7_view(c, old=False):
+    class _C:
+        a = {"self": c.a["self"]}
+        def h(s, f): return c.h(f)
+        def old(s, f): return c.old(f)
+    cc = _C()
+    return API.cv(c, old)
+
+
+def r7_init(c, st):
+    st.ghost["$mutated"] = z3.K(PyObj, z3.BoolVal(False))
+    st.ghost["$mutated_key"] = z3.Const("mut_key0", z3.ArraySort(PyObj, PyObj))
+    st.ghost["$mutated_val"] = z3.Const("mut_val0", z3.ArraySort(PyObj, PyObj))
+
+
+def r7_pre(c):
+    v = API.cv(c)
+    gen, flags = c.a["curves_data_gen"], c.a["data_assigned_to_curves"]
+    j1, j2 = z3.Int("j1"), z3.Int("j2")
+    col = lambda j: z3.Select(gen.cols[0], j)
+    return API.las_shape(c) + [
+        ("distinct-curve-objects", LI.distinct_objects(v)),
+        ("one-flag-per-declared-curve-all-false", z3.And(flags.n == v.n, forall(q, z3.Implies(z3.And(0 <= q, q < flags.n), z3.Not(z3.Select(flags.cols[0], q)))))),
+        ("the-engine-yields-arrays-not-None", forall(q, z3.Implies(z3.And(0 <= q, q < gen.n), z3.Not(is_none(col(q)))))),
+        ("the-engine-yields-distinct-arrays", z3.ForAll([j1, j2], z3.Implies(z3.And(0 <= j1, j1 < j2, j2 < gen.n), col(j1) != col(j2)))),
+    ]
+
+
+def r7_state(c, i):
+    """after i columns"""
+    v, v0 = API.cv(c), API.cv(c, old=True)
+    d = v0.n
+    gen, flags = c.a["curves_data_gen"], c.v("data_assigned_to_curves")
+    col = lambda j: z3.Select(gen.cols[0], j)
+    data = c.h("data")
+    mut, mkey, mval = c.g("$mutated"), c.g("$mutated_key"), c.g("$mutated_val")
+    pn = c.a["provisional_null"].t
+    nan = z3.Const("ext_%s" % __import__("hashlib").sha1(b"mod:np.nan").hexdigest()[:10], PyObj)
+    py_eq_obj = z3.Function("py_eq_obj", PyObj, PyObj, PyObj)
+    r = z3.Int("r_o")
+    return [
+        ("curve-count=max(declared,columns-so-far)", v.n == z3.If(i > d, i, d)),
+        ("same-section-object", z3.And(v.s == v0.s, z3.Select(c.h("$alloc"), v.s))),
+        ("declared-curves-keep-their-place", forall(q, z3.Implies(z3.And(0 <= q, q < d), v.item(q) == v0.item(q)))),
+        ("column-j-is-the-data-of-curve-j", forall(q, z3.Implies(z3.And(0 <= q, q < i),
+                                                                 z3.Select(data, v.item(q)) == z3.If(q < d, col(q), np_asarray(col(q)))))),
+        ("surplus-columns-become-new-unnamed-curves", forall(q, z3.Implies(z3.And(d <= q, q < v.n), z3.And(
+            z3.Not(z3.Select(c.old("$alloc"), v.item(q))), z3.Select(c.h("$alloc"), v.item(q)), v.item(q) != v.s,
+            z3.Select(c.h("original_mnemonic"), v.item(q)) == z3.StringVal(""))))),
+        ("declared-metadata-untouched", z3.ForAll([r], z3.Implies(z3.Select(c.old("$alloc"), r), z3.And(
+            z3.Select(c.h("original_mnemonic"), r) == z3.Select(c.old("original_mnemonic"), r),
+            z3.Select(c.h("unit"), r) == z3.Select(c.old("unit"), r), z3.Select(c.h("value"), r) == z3.Select(c.old("value"), r),
+            z3.Select(c.h("descr"), r) == z3.Select(c.old("descr"), r))))),
+        ("other-sections-untouched", z3.ForAll([r], z3.Implies(z3.And(z3.Select(c.old("$alloc"), r), r != v0.s), z3.And(
+            z3.Select(c.h("$len"), r) == z3.Select(c.old("$len"), r), z3.Select(c.h("$items"), r) == z3.Select(c.old("$items"), r))))),
+        ("NULL-replaced-exactly-in-float-non-index-columns-when-the-policy-says-so", forall(q, z3.Implies(z3.And(0 <= q, q < i),
+            z3.Select(mut, col(q)) == z3.And(c.a["version_NULL"].t, isfloat(col(q)), q != 0)))),
+        ("the-replacement-is: column[column == NULL] = nan", forall(q, z3.Implies(z3.And(0 <= q, q < i, z3.Select(mut, col(q))), z3.And(
+            z3.Select(mkey, col(q)) == z3.Function("py_cmp_Eq", PyObj, PyObj, PyObj)(col(q), pn), z3.Select(mval, col(q)) == nan)))),
+        ("later-columns-not-yet-touched", forall(q, z3.Implies(z3.And(i <= q, q < gen.n), z3.Not(z3.Select(mut, col(q)))))),
+        ("flags", z3.And(flags.n == v.n, forall(q, z3.Implies(z3.And(0 <= q, q < i), z3.Select(flags.cols[0], q))),
+                  forall(q, z3.Implies(z3.And(i <= q, q < flags.n), z3.Not(z3.Select(flags.cols[0], q)))))),
+        ("alloc-grows", z3.ForAll([r], z3.Implies(z3.Select(c.old("$alloc"), r), z3.Select(c.h("$alloc"), r)))),
+        ("curves-field", c.h("$sec_Curves") == c.old("$sec_Curves")),
+    ]
+
+
+def r7_inv(c):
+    return [("curve_idx=columns-so-far", c.v("curve_idx").t == c.i)] + r7_state(c, c.i)
+
+
+R7_FIELDS = ["$len", "$items", "$alloc", "$cls", "data", "mnemonic", "original_mnemonic", "unit", "value", "descr", "$sec_Curves"]
+
+R7 = REG.add(Contract(
+    "las.LASFile.read#R7-assign-columns",
+    params={"self": API.LAS, "curves_data_gen": LIST(OBJ), "version_NULL": BOOL, "provisional_null": OBJ,
+            "data_assigned_to_curves": LIST(BOOL)},
+    requires=r7_pre,
+    ensures=lambda c: r7_state(c, c.a["curves_data_gen"].n),
+    loops={0: r7_inv}, loop_fields=R7_FIELDS, loop_ghost={0: ["$mutated", "$mutated_key", "$mutated_val"]},
+    loop_types={"curve": API.CI, "curve_length": INT}, dict_like=("data_assigned_to_curves",),
+    ghost_init=r7_init, modifies={f: None for f in R7_FIELDS},
+    use={"las_items.SectionItems.append": "shape"},
+    verify_with=block_verifier("las.LASFile.read", "curve_idx = 0", "curve_idx += 1", "las"),
+    properties=("C06", "C07"), may_raise=["Any"]))
+R7.note = "numpy.asarray / arr[mask] = nan / len(array) are opaque library operations that may raise"
+
+
+# ---------------------------------------------------------------- R5: column-count choice and cursor discipline
+sniff = z3.Function("sniffed_columns", I, PyObj, I)          # inspect_data_section(title line, substitutions)
+sniff_subs = z3.Function("recommended_subs", I, PyObj, PyObj)
+
+K4 = REG.add(Contract(
+    "reader.inspect_data_section",
+    params={"file_obj": FILE, "line_nos": TUPLE(INT, INT), "regexp_subs": OBJ, "ignore_data_comments": OBJ},
+    requires=lambda c: [("cursor-at-the-section-title", cursor(c) == c.a["line_nos"].items[0].t)],
+    ensures=lambda c: [("a-function-of-the-section-and-the-substitutions", z3.And(
+        c.res.items[0].t == sniff(c.a["line_nos"].items[0].t, c.a["regexp_subs"].t),
+        c.res.items[1].t == sniff_subs(c.a["line_nos"].items[0].t, c.a["regexp_subs"].t)))],
+    returns=TUPLE(INT, OBJ), modifies={"$cursor": None}, assumed=True, may_raise=["Any"],
+    note="inspect_data_section reads from the current position: it must be called with the cursor at the section title; its result "
+         "depends only on that section and the substitutions (bounded: C07/C09 harnesses)",
+    properties=("C07", "C01", "C09")))
+
+
+def r5_post(c):
+    t = c.a["first_line"].t
+    n1 = sniff(t, c.a["regexp_subs"].t)
+    n2 = sniff(t, sniff_subs(t, c.a["regexp_subs"].t))
+    rn = c.v("reader_n_columns").t
+    d = API.cv(c).n
+    return [("cursor-back-at-the-section-title-for-the-data-engine", cursor(c) == t),
+            ("columns=sniffed-count-or-declared-curves-when-inconsistent", z3.Or(
+                rn == z3.If(n1 == -1, d, n1), rn == z3.If(n2 == -1, d, n2)))]
+
+
+R5 = REG.add(Contract(
+    "las.LASFile.read#R5-column-count",
+    params={"self": API.LAS, "file_obj": FILE, "k": INT, "first_line": INT, "last_line": INT, "regexp_subs": OBJ,
+            "ignore_data_comments": OBJ, "accept_regexp_sub_recommendations": OBJ, "dtypes": OBJ},
+    requires=lambda c: API.las_shape(c) + [("offset-is-the-title's", c.a["k"].t == cookie(c.a["first_line"].t)),
+                                          ("title-in-file", z3.And(0 <= c.a["first_line"].t, c.a["first_line"].t < NLINES))],
+    ensures=r5_post, ghost_init=file_init(), reveal=("io",), modifies={"$cursor": None},
+    verify_with=block_verifier("las.LASFile.read", "file_obj.seek(k)", "if isinstance(dtypes, dict)", "las", occurrence=0),
+    properties=("C07", "C01", "C09"), may_raise=["Any"], merge=False, free_default=True))
+
+
+# ---------------------------------------------------------------- R2: routing of a parsed header section by its title
+def r2_post(c):
+    title = c.a["section_title"].t
+    me, sec = c.a["self"].t, c.a["sct_items"].t
+    letter = upper(z3.SubString(title, 1, 1))
+    plain = z3.Not(z3.Contains(title, z3.StringVal("_")))
+    las3 = z3.Or(z3.Contains(title, z3.StringVal("~Log_Definition")), z3.Contains(title, z3.StringVal("~Log_Parameter")),
+                 z3.And(z3.Function("py_eq", PyObj, PyObj, B)(c.a["provisional_version"].t, API_const(3.0)), c.a["las3_section"].t))
+    fld = lambda f: z3.Select(c.h(f), me)
+    fld0 = lambda f: z3.Select(c.old(f), me)
+    four = ["$sec_Version", "$sec_Well", "$sec_Curves", "$sec_Parameter"]
+    only = lambda f: z3.And([fld(f) == sec] + [fld(g) == fld0(g) for g in four if g != f] + [fld("$sec_custom") == fld0("$sec_custom")])
+    rest = z3.SubString(title, 1, z3.Length(title) - 1)
+    return [
+        ("~c/~C-is-Curves", z3.Implies(z3.And(letter == z3.StringVal("C"), plain), only("$sec_Curves"))),
+        ("~p/~P-is-Parameter", z3.Implies(z3.And(letter == z3.StringVal("P"), plain), only("$sec_Parameter"))),
+        ("~v/~V-is-Version", z3.Implies(z3.And(letter == z3.StringVal("V"), plain, z3.Not(las3)), only("$sec_Version"))),
+        ("~w/~W-is-Well", z3.Implies(z3.And(letter == z3.StringVal("W"), plain, z3.Not(las3)), only("$sec_Well"))),
+        ("any-other-section-is-kept-under-its-own-title-and-touches-no-standard-section", z3.Implies(
+            z3.And(plain, z3.Not(las3), z3.Not(z3.Or([letter == z3.StringVal(x) for x in "CPVW"])),
+                   z3.Not(z3.Or([rest == z3.StringVal(x) for x in ("Version", "Well", "Curves", "Parameter")]))),
+            z3.And([fld(g) == fld0(g) for g in four] + [z3.Select(fld("$sec_custom"), rest) == sec]))),
+    ]
+
+
+def API_const(x):
+    import hashlib
+    return z3.Const("const_%s" % hashlib.sha1(repr(x).encode()).hexdigest()[:10], PyObj)
+
+
+R2 = REG.add(Contract(
+    "las.LASFile.read#R2-routing",
+    params={"self": API.LAS, "sct_items": LI.SI, "section_title": STR, "provisional_version": OBJ, "las3_section": BOOL},
+    requires=lambda c: [("title-has-a-letter", z3.Length(c.a["section_title"].t) >= 2)],
+    ensures=r2_post,
+    modifies={f: (lambda c, r: r == c.a["self"].t) for f in ("$sec_Version", "$sec_Well", "$sec_Curves", "$sec_Parameter", "$sec_custom")},
+    verify_with=block_verifier("las.LASFile.read", "if (", "self.sections[section_title[1:]] = sct_items", "las", occurrence=0),
+    properties=("C05",), noraise=True, merge=False))
